@@ -98,4 +98,11 @@ def Wire.describe (buf : Bytes) : Option Wire :=
   | some w => if w.WF && w.encode == buf then some w else none
   | none => none
 
+/-- the well-formed description of a standalone block (4-byte header included), if `bytes` is the
+    image of one (checked with `ExtBlock.encode`, not trusted) -/
+def ExtBlock.describe (bytes : Bytes) : Option ExtBlock :=
+  match decodeExtPart true bytes with
+  | some (some b, []) => if b.WF && b.encode == bytes then some b else none
+  | _ => none
+
 end Rtp.Spec.Wire
